@@ -481,6 +481,17 @@ fn execute_inner(job: &Job, paths: &Paths) -> RunResult {
         return res;
     }
     res.violations = p.check(&case, &rec, obs.as_ref());
+    if let Some((sc2, kn2, op2)) = p.reference(&case) {
+        let rec2 = play(&sc2, paths, case.seed, &kn2, &op2, &mut NoObserver);
+        if let Some(e) = &rec2.harness_error {
+            res.harness_error = Some(format!("reference run: {}", e));
+            res.case = Some(case);
+            return res;
+        }
+        res.violations
+            .extend(p.check_with_reference(&case, &rec, &rec2));
+        res.steps += rec2.total_steps();
+    }
     res.nontrivial = p.nontrivial(&case, &rec);
     res.signature = p.signature(&case, &rec);
     res.probes = p.probes(&case, &rec);
